@@ -49,6 +49,8 @@ type vsModel struct {
 	Name string `json:"name"`
 	VRAM uint64 `json:"vram"` // what the mock server reports per GPU it was placed on
 	Edge bool   `json:"edge"` // VRAM := total - (free memory in which the blocks of a model fit but not its output layer)
+	// with edge: VRAM := total - (free memory in which a model fits completely with one slot but not with edge_par slots)
+	EdgePar int `json:"edge_par"`
 	Bad  bool   `json:"bad"`  // model file does not exist (direct mode only)
 }
 
@@ -92,6 +94,11 @@ type vsCase struct {
 	// probability with which a load parked in WaitUntilRunning is kept parked while anything else can happen
 	// (class join-during-load: later requests for the model are dequeued while the first load is in flight)
 	HoldLoad float64 `json:"hold_load"`
+	// passive: no explicit unload, neither in the schedule nor in the drain; the drain only finishes the requests and
+	// lets virtual time pass every keep-alive (all keep-alives of such a case are finite)
+	Passive bool `json:"passive"`
+	// probability of cancelling an unanswered request while the pending loop is between needsReload and the hand-over
+	CancelHot float64 `json:"cancel_hot"`
 }
 
 type vsStep struct {
@@ -619,6 +626,33 @@ func (r *vsRun) randomChoice() (vsChoice, bool) {
 	c := r.c
 	all := r.internalOpts()
 	ints := all
+	if c.CancelHot > 0 {
+		hot := false
+		for _, g := range r.ctl.Parked() {
+			if g.Site == "mock.ping" || strings.HasPrefix(g.Site, "useLoadedRunner.") {
+				hot = true
+			}
+		}
+		if !hot && r.rng.Float64() < c.CancelHot {
+			// requests that hold a runner finish early, so that the next one finds the runner idle
+			for q, rs := range r.reqs {
+				if rs.submitted && !rs.cancelled && rs.replies > 0 {
+					return vsChoice{A: "cancel", Q: q}, true
+				}
+			}
+		}
+		if hot && r.rng.Float64() < c.CancelHot {
+			var qs []int
+			for q, rs := range r.reqs {
+				if rs.submitted && !rs.cancelled && rs.replies == 0 {
+					qs = append(qs, q)
+				}
+			}
+			if len(qs) > 0 {
+				return vsChoice{A: "cancel", Q: qs[r.rng.Intn(len(qs))]}, true
+			}
+		}
+	}
 	if c.HoldLoad > 0 && r.rng.Float64() < c.HoldLoad {
 		var rest []vsOpt
 		for _, o := range all {
@@ -675,7 +709,7 @@ func (r *vsRun) randomChoice() (vsChoice, bool) {
 			}
 		}
 	}
-	if r.apis < 3 {
+	if r.apis < 3 && !c.Passive {
 		env = append(env, vsChoice{A: "expire", M: r.rng.Intn(len(r.models))})
 		w = append(w, 0.6)
 	}
@@ -812,8 +846,12 @@ func (r *vsRun) drain() {
 		}
 		var maxd int64 = 250
 		for p, ru := range r.s.loaded {
-			if ru.expireTimer != nil {
-				d := vsDur(ru.sessionDuration)
+			d := vsDur(ru.sessionDuration)
+			if r.c.Passive {
+				if d+1 > maxd {
+					maxd = d + 1
+				}
+			} else if ru.expireTimer != nil {
 				if d < 0 {
 					r.step(vsChoice{A: "expire", M: r.modelIndex(p)}, "d2")
 				} else if d+1 > maxd {
@@ -885,7 +923,7 @@ func vsRunCase(dir string, c *vsCase) (obs *vsObs) {
 		for k := range c.Models {
 			if c.Models[k].Edge && len(c.Gpus) > 0 && !c.Models[k].Bad {
 				if obs.EdgeFree == 0 {
-					obs.EdgeFree = vsEdgeFree(r.models[k].ModelPath, c.Gpus[0], c.Par)
+					obs.EdgeFree = vsEdgeFree(r.models[k].ModelPath, c.Gpus[0], c.Par, c.Models[k].EdgePar)
 				}
 				if obs.EdgeFree > 0 {
 					c.Models[k].VRAM = c.Gpus[0].Total - obs.EdgeFree
@@ -984,7 +1022,9 @@ func vsRunCase(dir string, c *vsCase) (obs *vsObs) {
 
 // vsEdgeFree: a free-memory value for which the memory estimate places the repeating blocks of the (tiny) model on
 // the GPU but not its output layer (0 if there is no such value).
-func vsEdgeFree(path string, g vsGpu, par int) uint64 {
+// With edgePar > 1: a value for which the model fits completely with one slot (context 2048) but not with edgePar
+// slots (context edgePar x 2048).
+func vsEdgeFree(path string, g vsGpu, par int, edgePar int) uint64 {
 	f, err := llm.LoadModel(path, 0)
 	if err != nil {
 		return 0
@@ -992,22 +1032,22 @@ func vsEdgeFree(path string, g vsGpu, par int) uint64 {
 	if par <= 0 {
 		par = 1
 	}
-	opts := api.DefaultOptions()
-	opts.NumCtx = 2048 * par
-	layers := func(free uint64) int {
+	layers := func(free uint64, p int) int {
+		opts := api.DefaultOptions()
+		opts.NumCtx = 2048 * p
 		x := discover.GpuInfo{Library: g.Lib, ID: g.ID}
 		x.TotalMemory = g.Total
 		x.FreeMemory = free
-		return llm.EstimateGPULayers([]discover.GpuInfo{x}, f, nil, opts, par).Layers
+		return llm.EstimateGPULayers([]discover.GpuInfo{x}, f, nil, opts, p).Layers
 	}
-	first := func(n int) uint64 { // least free memory with at least n layers
+	first := func(n int, p int) uint64 { // least free memory with at least n layers
 		lo, hi := uint64(0), g.Total
-		if layers(hi) < n {
+		if layers(hi, p) < n {
 			return 0
 		}
 		for lo < hi {
 			mid := lo + (hi-lo)/2
-			if layers(mid) >= n {
+			if layers(mid, p) >= n {
 				hi = mid
 			} else {
 				lo = mid + 1
@@ -1016,7 +1056,10 @@ func vsEdgeFree(path string, g vsGpu, par int) uint64 {
 		return lo
 	}
 	blocks := int(f.KV().BlockCount())
-	a, b := first(blocks), first(blocks+1)
+	a, b := first(blocks, par), first(blocks+1, par)
+	if edgePar > 1 {
+		a, b = first(blocks+1, 1), first(blocks+1, edgePar)
+	}
 	if a == 0 || b == 0 || a >= b {
 		return 0
 	}
